@@ -110,6 +110,60 @@ def run_impl(size, pol, ops):
     return trace
 
 
+def gen_valid_live_big(rng, size, n_ops):
+    """A valid history on a heap that holds more than 64 elements for most of its length: fill phase (inserts with and
+    without a cost), then improving updates of queued elements (most of them deep in the heap), removals and re-inserts."""
+    from opfython.core import Heap
+    pol = rng.choice(["min", "max"])
+    k = rng.choice([3, 12, 0])
+    alphabet = sorted(set(float(rng.randint(0, 40)) for _ in range(k))) if k else None
+    h = Heap(size, pol)
+    ops = []
+
+    def do(op):
+        ops.append(op)
+        if op[0] == "ins":
+            h.insert(op[1])
+        elif op[0] == "upd":
+            h.update(op[1], op[2])
+        elif op[0] == "rem":
+            h.remove()
+
+    def start_cost():
+        return rng.choice(alphabet) if alphabet else round(rng.random() * 1000, 4)
+
+    def improved(cur):
+        if alphabet:
+            return rng.choice([c for c in alphabet if (c <= cur if pol == "min" else c >= cur)] or [cur])
+        if cur == FLOAT_MAX:
+            return start_cost() if pol == "min" else cur
+        return cur - rng.random() * rng.choice([0.01, 5.0, 200.0]) if pol == "min" else cur + rng.random() * rng.choice([0.01, 5.0, 200.0])
+
+    order = list(range(size)); rng.shuffle(order)
+    for p in order[:rng.randint(int(0.8 * size), size)]:
+        do(("upd", p, start_cost()) if rng.random() < 0.8 else ("ins", p, 0.0))
+    while len(ops) < n_ops:
+        r = rng.random()
+        gray = [p for p in range(size) if h.color[p] == 1]
+        nongray = [p for p in range(size) if h.color[p] != 1]
+        if r < 0.55 and gray:
+            # prefer elements in the lower half of the array (deep positions)
+            deep = [h.p[i] for i in range((h.last + 1) // 2, h.last + 1)]
+            p = rng.choice(deep if deep and rng.random() < 0.7 else gray)
+            do(("upd", p, improved(h.cost[p])))
+        elif r < 0.75:
+            do(("rem", 0, 0.0))
+        elif r < 0.93 and nongray:
+            p = rng.choice(nongray)
+            do(("upd", p, start_cost()) if rng.random() < 0.7 else ("ins", p, 0.0))
+        else:
+            do((rng.choice(["empty", "full"]), 0, 0.0))
+    # drain: every queued element has to come out in order
+    for _ in range(rng.randint(0, h.last + 2)):
+        do(("rem", 0, 0.0))
+    return size, pol, ops
+
+
 def gen_valid_live(rng, max_size=8, max_len=40, exhaustive=None):
     """Generate a valid history by driving the real heap (ties in removal are then followed exactly)."""
     from opfython.core import Heap
@@ -300,6 +354,31 @@ def main(tier, seed):
         rep.obligation("correspondence Heap model vs opfython.core.Heap (full state after every op)", dis == 0,
                        "" if dis == 0 else "%d disagreements; first: size=%d pol=%s ops=%r" % (dis, first[1], first[2], first[3]))
     rep.corr["heap_histories"] = dict(cases=len(terms), disagreements=dis, distribution=stats, exhaustive_small=exh)
+    # large heaps (more than 64 queued elements, depth >= 7): answers of every operation + the final state
+    big = []
+    for i in range(6 if tier == "quick" else 60):
+        size = rng.choice([65, 70, 100, 129, 200, 300])
+        big.append(("big",) + gen_valid_live_big(rng, size, rng.randint(3 * size, 5 * size)))
+    bterms, bexpect = [], []
+    for (_, size, pol, ops) in big:
+        trace = run_impl(size, pol, ops)
+        vals = [FLOAT_MAX, 0.0] + [b for (_, _, b) in ops]
+        rk = Ranker(vals)
+        flat = []
+        for (k, a, b) in ops:
+            flat += [TAG[k], a, rk.r(b)]
+        bterms.append("run_heap_lite %d %d %d %s" % (size, 0 if pol == "min" else 1, rk.r(FLOAT_MAX), zlist(flat)))
+        bexpect.append([t[0] for t in trace] + expected_dump(size, trace[-1:], rk)[1:])
+        metas.append(("big", size, pol, ops, trace))
+        rep.count_case((size, pol, tuple(ops)), True)
+    try:
+        bgot = run_cases("C05big", bterms, chunk=1)
+        bdis = [m for g, e, m in zip(bgot, bexpect, big) if g != e]
+        rep.obligation("correspondence Heap model vs opfython.core.Heap on large heaps (65-300 elements; every answer, final state)", not bdis,
+                       "" if not bdis else "%d disagreements; first: size=%d pol=%s, %d ops" % (len(bdis), bdis[0][1], bdis[0][2], len(bdis[0][3])))
+    except RuntimeError as ex:
+        rep.obligation("correspondence Heap model vs opfython.core.Heap on large heaps", False, str(ex))
+    rep.corr["heap_histories_large"] = dict(cases=len(bterms), sizes=[b[1] for b in big], ops=sum(len(b[3]) for b in big))
     import floatorder   # fenc / ranker / PrimFloat.ltb of Props/C0{1,5}_float_order.v are common.enc / Ranker / Python's <
     floatorder.check(rep, tier, seed)
     # oracle on the implementation's own answers (valid and exhaustive-valid streams)
@@ -344,15 +423,26 @@ def exh_valid(size, pol, ops):
 
 def shrink(size, pol, ops):
     """Greedy removal of operations while the oracle still fails and the history stays valid."""
+    import re as _re, time as _time
     cur = list(ops)
+    m = _re.match(r"step (\d+):", oracle(size, pol, cur, run_impl(size, pol, cur)) or "")
+    if m:
+        cur = cur[:int(m.group(1)) + 1]     # nothing after the first failing step is needed
+    t0 = _time.time()
     changed = True
-    while changed:
+    while changed and _time.time() - t0 < 30:
         changed = False
-        for i in range(len(cur)):
-            cand = cur[:i] + cur[i + 1:]
-            if cand and exh_valid(size, pol, cand) and oracle(size, pol, cand, run_impl(size, pol, cand)):
-                cur = cand; changed = True
-                break
+        # larger chunks first (long histories), then single operations
+        for width in (len(cur) // 4, len(cur) // 16, 1):
+            if width < 1:
+                continue
+            i = 0
+            while i < len(cur) and _time.time() - t0 < 30:
+                cand = cur[:i] + cur[i + width:]
+                if cand and exh_valid(size, pol, cand) and oracle(size, pol, cand, run_impl(size, pol, cand)):
+                    cur = cand; changed = True
+                else:
+                    i += width
     return cur
 
 
